@@ -233,3 +233,21 @@ Example C02_flags_example :
   index_flags false (Some TarFeatureFlags) = 0x9000000010001f22%N /\ index_flags true (Some TarFeatureFlags) = TarFeatureFlags /\
   index_flags false None = CaFormatExcludeNoDump.
 Proof. vm_compute. repeat split. Qed.
+
+(* RUNS OF ONE BYTE VALUE.  Every window inside such a run is the same, so the rule cuts after
+   min+1 bytes when the discriminator meets that window's hash ("resonant" parameters) and does
+   not cut at all otherwise.  "A zero run contains no boundary" -- the assumption behind the null
+   chunk -- is true exactly in the second case; for zero runs avg = 5251 is resonant (the harness
+   derives the resonant avgs of several byte values from the generated table and chunks runs with
+   them). *)
+Theorem C02_cut_constant_run : forall min max d, W <= min -> min <= max -> 0 < max ->
+  forall b n, min < n -> min < max ->
+  cut_spec min max d (repeat b n) = if is_boundary d (win_hash (repeat b W)) then S min else Nat.min max n.
+Proof. exact cut_constant_run. Qed.
+Print Assumptions C02_cut_constant_run.
+
+Example C02_zero_run_resonance :
+  is_boundary (disc_of_avg 5251) (win_hash (repeat 0%N W)) = true /\
+  is_boundary (disc_of_avg 65536) (win_hash (repeat 0%N W)) = false /\
+  disc_of_avg 5251 = 3943%N /\ win_hash (repeat 0%N W) = 0x9e489e48%N.
+Proof. vm_compute. repeat split. Qed.
